@@ -9,6 +9,11 @@ C10 — replica placement.  Hand-written executable model of
 and, in namespace `Placement.Spec`, an independent description of what Cassandra does
 (TokenMetadata.firstTokenIndex / ringIterator, SimpleStrategy, NetworkTopologyStrategy 3.0).
 
+`networkTopology.replicaMap` is modelled as it is AFTER the repairs of KF-C10-1/2/3
+(props/C10.fix-KF-C10-*.diff): (1) the inner walk remembers the hosts it has met (`seenHosts`) and skips a host
+met before, (2) the final sanity check counts the datacenters OF THE RING that hold replicas,
+(3) `dcRacks` is built from the hosts of the ring entries (hosts that own tokens), not from `tokenRing.hosts`.
+
 Core Lean only.  Tokens are `Int` (Murmur3: int64; Random: non-negative big integer; Ordered:
 the harness uses fixed-width strings whose byte order is the numeric order).  A host is the
 triple (id, dc, rack); Go compares hosts by pointer (`seen[h.host]`) — one pointer per id in
@@ -124,15 +129,19 @@ def upd {β : Type} (f : Nat → β) (k : Nat) (v : β) : Nat → β := fun x =>
 /-- what `replicaMap` computes before the token loop -/
 structure NtsCfg where
   rfs : List (Nat × Nat)      -- n.dcs (a Go map: keys pairwise distinct)
+  dcs : List Nat              -- keys of dcRacks
   racks : Nat → List Nat      -- dcRacks[dc]
   nDcRacks : Nat              -- len(dcRacks)
   nCountKeys : Nat            -- len(replicasInDC) once the per-token reset loop has run: |ring DCs ∪ keys(n.dcs)|
   totalRF : Nat
 
-def mkCfg (rfs : List (Nat × Nat)) (hosts : List Host) : NtsCfg :=
-  let dcs := toSet (hosts.map (·.dc))
+/-- `owners` = the hosts the `dcRacks` loop visits: `for _, th := range tokenRing.tokens { h := th.host … }`
+(one per ring entry; `dcRacks` is a map of sets, so repetitions do not matter). -/
+def mkCfg (rfs : List (Nat × Nat)) (owners : List Host) : NtsCfg :=
+  let dcs := toSet (owners.map (·.dc))
   { rfs := rfs
-    racks := fun dc => toSet ((hosts.filter (fun h => h.dc = dc)).map (·.rack))
+    dcs := dcs
+    racks := fun dc => toSet ((owners.filter (fun h => h.dc = dc)).map (·.rack))
     nDcRacks := dcs.length
     nCountKeys := (toSet (dcs ++ rfs.map (·.1))).length
     totalRF := (rfs.map (·.2)).sum }
@@ -181,12 +190,14 @@ def ntsStep (c : NtsCfg) (st : NtsSt) (h : Host) : NtsSt :=
     else
       { st with skipped := upd st.skipped h.dc (st.skipped h.dc ++ [h]) }
 
-/-- `for j := 0; j < len(tokens) && (len(replicas) < totalRF && !n.haveRF(replicasInDC)); j++` -/
-def ntsWalk (c : NtsCfg) : NtsSt → List Host → NtsSt
-  | st, [] => st
-  | st, h :: rest =>
+/-- `for j := 0; j < len(tokens) && (len(replicas) < totalRF && !n.haveRF(replicasInDC)); j++` with
+`if _, ok := seenHosts[h]; ok { continue }; seenHosts[h] = struct{}{}` at the top of the body; `sh` = seenHosts. -/
+def ntsWalk (c : NtsCfg) : NtsSt → List Host → List Host → NtsSt
+  | st, _, [] => st
+  | st, sh, h :: rest =>
     if st.crash then st
-    else if st.replicas.length < c.totalRF ∧ haveRF c st = false then ntsWalk c (ntsStep c st h) rest
+    else if st.replicas.length < c.totalRF ∧ haveRF c st = false then
+      (if h ∈ sh then ntsWalk c st sh rest else ntsWalk c (ntsStep c st h) (sh ++ [h]) rest)
     else st
 
 inductive Crash
@@ -197,7 +208,7 @@ inductive Crash
 deriving DecidableEq, Repr
 
 def ntsReplicasAt (c : NtsCfg) (tokens : List Entry) (i : Nat) : NtsSt :=
-  ntsWalk c ntsInit ((rot tokens i).map (·.2))
+  ntsWalk c ntsInit [] ((rot tokens i).map (·.2))
 
 /-- outer loop over `(i, th)`; `acc` is `replicaRing` -/
 def ntsLoop (c : NtsCfg) (tokens : List Entry) : List (Nat × Entry) → ReplicaRing → Except Crash ReplicaRing
@@ -215,13 +226,15 @@ def ntsLoop (c : NtsCfg) (tokens : List Entry) : List (Nat × Entry) → Replica
 
 def indexed {α : Type} (l : List α) : List (Nat × α) := (List.range l.length).zip l
 
-def ntsReplicaMap (rfs : List (Nat × Nat)) (hosts : List Host) (tokens : List Entry) : Except Crash ReplicaRing :=
-  let c := mkCfg rfs hosts
+/-- `dcsWithReplicas := 0; for dc := range dcRacks { if n.dcs[dc] > 0 { dcsWithReplicas++ } }` -/
+def dcsWithReplicas (c : NtsCfg) : Nat := (c.dcs.filter (fun d => decide (rfOf c.rfs d > 0))).length
+
+def ntsReplicaMap (rfs : List (Nat × Nat)) (tokens : List Entry) : Except Crash ReplicaRing :=
+  let c := mkCfg rfs (tokens.map (·.2))
   match ntsLoop c tokens (indexed tokens) [] with
   | .error e => .error e
   | .ok rr =>
-    let dcsWithReplicas := (rfs.filter (fun p => p.2 > 0)).length
-    if dcsWithReplicas = c.nDcRacks ∧ rr.length ≠ tokens.length then .error .sizeMismatch else .ok rr
+    if dcsWithReplicas c = c.nDcRacks ∧ rr.length ≠ tokens.length then .error .sizeMismatch else .ok rr
 
 /-- the panic, if any -/
 def crashOf {α : Type} : Except Crash α → Option Crash
